@@ -193,6 +193,58 @@ def syn_array(rng, kind, swap=False, chk=True, style="plain"):
     return syn_finish(s), ("rd", f"H,{kind}{k},V")
 
 
+def syn_mdef(rng, swap=False, hetero=False):
+    """a small binary mdef (bin_mdef.h layout): format words, counts, names, cd_tree, phone records, sequences"""
+    E = ">" if swap else "<"
+    s = Syn(swap)
+    s.chk = False
+    s.hdr_text_end = 0
+    s.text(b"FDMB" if swap else b"BMDF")
+    s.fields["magic"] = 0
+    desc = b"bin mdef" + b"\0" * (4 * rng.range(1, 2))
+    s.u32(1, "version"); s.u32(len(desc), "desc_len"); s.text(desc)
+    n_ci, n_cd, n_emit = rng.range(1, 4), rng.range(0, 4), rng.range(1, 3)
+    n_phone = n_ci + n_cd
+    lens = [rng.range(1, 3) for _ in range(n_phone)] if hetero else [n_emit] * n_phone
+    if hetero:
+        for i in range(n_ci, n_phone):          # a CD phone may have more states than its CI phone
+            lens[i] = rng.range(1, 3)
+    seqs, sen = [], 0
+    for i in range(n_phone):
+        seqs.append(list(range(sen, sen + lens[i]))); sen += lens[i]
+    n_tree = rng.range(0, 3)
+    names = sorted(rng.choice([b"A", b"AA", b"B", b"SIL", b"SI", b"SILX", b"T", b"Z", b"+NSN+"]) + bytes([65 + i]) * (i > 0)
+                   for i in range(n_ci))
+    if rng.chance(0.6):
+        names[rng.below(n_ci)] = b"SIL"
+        names.sort()
+    for nm, v in (("n_ciphone", n_ci), ("n_phone", n_phone), ("n_emit_state", 0 if hetero else n_emit),
+                  ("n_ci_sen", sum(lens[:n_ci])), ("n_sen", sen), ("n_tmat", n_ci), ("n_sseq", n_phone), ("n_ctx", 3),
+                  ("n_cd_tree", n_tree), ("sil", 0)):
+        s.u32(v, nm)
+    data0 = len(s.b)
+    for nm in names:
+        s.text(nm + b"\0")
+    while (len(s.b) - data0) % 4:
+        s.text(b"\0")
+    s.hdr_end = len(s.b)
+    for i in range(n_tree):
+        s.text(struct.pack(E + "hhi", i, 1, i + 1))
+    s.regions = {"phone": len(s.b)}
+    for i in range(n_phone):
+        ci = i if i < n_ci else rng.below(n_ci)
+        s.text(struct.pack(E + "ii", i, ci))
+        s.text(bytes([1, 0, 0, 0]) if i < n_ci else bytes([i % 4, ci, rng.below(n_ci), rng.below(n_ci)]))
+    s.u32(sum(lens), "sseq_size")
+    s.regions["sseq"] = len(s.b)
+    for sq in seqs:
+        for v in sq:
+            s.text(struct.pack(E + "H", v))
+    if hetero:
+        s.text(bytes(lens))
+    return s, ("mdef",)
+
+
 def s3_line(cid, target, hexes_edits):
     """one stage-A case line; hexes_edits = [(src, edits)] with src hex or @path"""
     kind = target[0]
@@ -267,19 +319,6 @@ def layout(name, b):
                 "bounds": sorted({tree + 1, phone - 1, phone, phone + 1, ssz - 1, ssz, ssz + 3, ssz + 4, send - 1,
                                   len(b) - 1})}
     return {"hdr_end": min(len(b), 64), "fields": {}, "bounds": [len(b) - 1], "text_end": 0}
-
-
-# fields of the binary mdef that the reader ignores (the loaded model is the intact one) or that may
-# over-declare without the in-memory path being able to see it: an accepted load is the expected outcome
-def mdef_accept_expected(field, v, orig, mode):
-    if field == "version":
-        return struct.unpack("<i", struct.pack("<I", v))[0] <= 1
-    if field == "sil":
-        return True
-    if field == "n_tmat" and mode == "mem":
-        sv = struct.unpack("<i", struct.pack("<I", v))[0]
-        return sv > orig
-    return False
 
 
 # ----------------------------------------------------------------------------------------------
@@ -406,6 +445,10 @@ def gen_stage_a(c, A, tier, stats):
     for swap in (False, True):
         for clust, bits, pad in ((0, 8, 0), (0, 8, 2), (15, 4, 1), (16, 8, 0), (16, 4, 0)):
             makers.append(("sd", lambda swap=swap, clust=clust, bits=bits, pad=pad: syn_sendump(rng, swap, clust, bits, pad)))
+    for v in range(nvar if tier == "quick" else 2 * nvar):
+        for swap in (False, True):
+            for het in (False, True):
+                makers.append(("mdef", lambda swap=swap, het=het: syn_mdef(rng, swap, het)))
     for name, mk in makers:
         s, target = mk()
         b = bytes(s.b)
@@ -419,6 +462,13 @@ def gen_stage_a(c, A, tier, stats):
             for v in VALS(x):
                 k = "chksum" if fname == "chksum" else "field"
                 A.add(target, [(hx(b), f"w{off}:{v:x}")], dict(meta, kind=k, field=fname))
+        if name == "mdef":
+            # phone records, sequences, lengths, names: single-byte corruptions (indices that must be validated)
+            for off in range(s.fields["sil"] + 4, len(b)):
+                for v in ({0, 1, 2, 3, 5, 255, b[off] ^ 1, (b[off] + 1) & 255} if tier == "thorough" else
+                          {rng.choice([0, 1, 2, 3, 255]), (b[off] + 1) & 255}):
+                    if v != b[off]:
+                        A.add(target, [(hx(b), f"b{off}:{v:x}")], dict(meta, kind="data"))
         for off in range(getattr(s, "hdr_text_end", 0)):
             for v in ([0, 32, 10, 35, 101] if tier == "thorough" else [rng.choice([0, 32, 10, 35, 101, 255])]):
                 if b[off] != v:
@@ -491,7 +541,7 @@ def gen_stage_a_real(c, A, tier, stats, model_dir, tag):
     """the bundled files at loader level (modelled formats), faults in the header region + boundaries"""
     rng = c.rng
     files = {}
-    for fn in ("transition_matrices", "means", "variances", "sendump"):
+    for fn in ("transition_matrices", "means", "variances", "sendump", "mdef"):
         p = model_dir / fn
         if p.exists():
             files[fn] = p.read_bytes()
@@ -500,7 +550,9 @@ def gen_stage_a_real(c, A, tier, stats, model_dir, tag):
     n_sen = mdefL["vals"]["n_sen"]
     gm = layout("means", files["means"])
     gdims = [struct.unpack_from("<i", files["means"], gm["fields"][k])[0] for k in ("n_feat", "n_density")]
-    info = {"n_sen": n_sen, "gfeat": gdims[0], "gdens": gdims[1]}
+    tm = layout("transition_matrices", files["transition_matrices"])
+    info = {"n_sen": n_sen, "gfeat": gdims[0], "gdens": gdims[1], "n_ciphone": mdefL["vals"]["n_ciphone"],
+            "tmat_n": struct.unpack_from("<i", files["transition_matrices"], tm["fields"]["n_tmat"])[0]}
     step = 1 if tier == "thorough" else 5
 
     def add_faults(fn, path, b, mk):
@@ -528,6 +580,8 @@ def gen_stage_a_real(c, A, tier, stats, model_dir, tag):
             add_faults(fn, path, b, lambda ed, meta, path=path, pm=pm: A.add(("gau",), [(pm, "-"), (path, ed)], dict(meta, target="gau")))
         elif fn == "sendump":
             add_faults(fn, path, b, lambda ed, meta, path=path: A.add(("sd", info["gfeat"], info["gdens"], n_sen), [(path, ed)], dict(meta, target="sd")))
+        elif fn == "mdef":
+            add_faults(fn, path, b, lambda ed, meta, path=path: A.add(("mdef",), [(path, ed)], dict(meta, target="mdef")))
     if ft.exists() and tag == "en-us":
         b = ft.read_bytes()
         path = "@" + str(ft)
@@ -622,9 +676,20 @@ def expected_b(fault, plan_accepts, model_dir=None):
     if fn in ("feat_params.json", "noisedict.txt"):
         return None
     if fn == "mdef":
-        if meta["kind"] in ("field", "magic") and mdef_accept_expected(meta.get("field"), meta["value"], meta["orig"], mode):
-            return "acc"
-        return "rej"
+        # model-derived: bin_mdef_read accepts iff the plan model does; the assembled decoder additionally needs the
+        # codebook count (= n_ciphone) and the senone count of the other files, and (decoder_init only) n_tmat <= #tmat
+        core = plan_accepts.get(("mdef-core", ed))
+        if core is None:
+            return "rej"
+        intact = plan_accepts.get(("mdef-core", "-"))
+        if intact is None:
+            return None
+        # core = ok swap n_ciphone n_phone n_emit n_ci_sen n_sen n_tmat ...
+        if core[2] != intact[2] or core[6] != intact[6]:
+            return "rej"
+        if mode == "mmap" and int(core[7]) > int(intact[7]):
+            return "rej"
+        return "acc"
     key = (fn, ed)
     if key in plan_accepts:
         return "acc" if plan_accepts[key] else "rej"
@@ -720,12 +785,12 @@ def report(c, groups, limit=16):
 
 
 def check(c):
-    c.trusted += ["harness/h_c17.c + tools/props/c17.py (fault generator, layout parsers, canonicalisation, diff, expected-outcome table for the binary mdef)",
+    c.trusted += ["harness/h_c17.c + tools/props/c17.py (fault generator, layout parsers, canonicalisation, diff)",
                   "clang ASan/UBSan/LSan as observers of out-of-bounds reads (exact-size heap copies in the in-memory path), null dereference, double free, leaks; waitpid/on_exit as observers of exit()/abort()",
                   "js/api.js + js/soundswallower.c initialisation sequence transcribed into the harness as the 'without memory mapping' path",
-                  "Lean model = C code for what the correspondence did not exercise; bin_mdef.c, read_mixw, ms_senone.c, float-valued checks (tmat topology) are not modelled"]
+                  "Lean model = C code for what the correspondence did not exercise; ms_senone.c, float-valued checks (tmat topology), alignment of the in-place mdef tables and the cd_tree contents are not modelled"]
     c.assumptions += ["64-bit size_t, little-endian host; element sizes 1, 2, 4",
-                      "fields of the binary mdef that the reader ignores (version <= 1, sil) or that over-declare (n_tmat larger, in-memory path) yield the same model: acceptance is the expected outcome there",
+                      "a damaged binary mdef that the plan model accepts (ignored fields: version <= 1, sil; n_tmat over-declared in the in-memory path) with unchanged n_ciphone/n_sen is expected to load: it yields the same model",
                       "mmap path: an over-read inside the last mapped page is invisible to ASan; the in-memory path (exact-size heap block) observes it",
                       "feat_params.json / noisedict.txt faults are judged for cleanliness only (their parsers are the subject of C10/C14)"]
     if not c.lean_obligations():
@@ -780,6 +845,8 @@ def check(c):
                 tag, fn = f.split("/")
                 ed = w[3] if fn != "variances" else w[5]
                 plan_accepts[tag][(fn, ed)] = info["core"].startswith("ok")
+                if fn == "mdef" and info["core"].startswith("ok"):
+                    plan_accepts[tag][("mdef-core", ed)] = info["core"].split()
         else:
             a_bad += 1
             add_violation("A", meta["file"], meta["kind"], info.get("sig", "differs"),
@@ -796,7 +863,8 @@ def check(c):
     # "count fits into the rest of the file" test of the repaired code and cannot be reached any more
     dead = {"Failed to read density data", "Failed to read transition matrix", "get(arraydata) failed",
             "read (feature-lengths) failed", "s3file_get (arraydata) failed"}
-    src = (vlib.LEAN / "SSVerif" / "Model" / "S3file.lean").read_text()
+    src = (vlib.LEAN / "SSVerif" / "Model" / "S3file.lean").read_text() + \
+        (vlib.LEAN / "SSVerif" / "Model" / "BinMdef.lean").read_text()
     all_sites = {m for m in re.findall(r'"([A-Za-z][^"\n]{6,})"', src) if not m.startswith("is extremely")}
     missed = sorted(x for x in all_sites - dead if x not in model_sites)
     c.oblige(f"stage A: all {len(all_sites - dead)} reachable error returns of the model were exercised against the implementation",
